@@ -590,9 +590,11 @@ static std::string mutate(Rng &r, std::string h)
 
 static int record(uint64_t seed, long n)
 {
-  for (long i = 0; i < n; ++i)
-  {
+  return forked_loop(size_t(n), [&](size_t ii) {
+    long i = long(ii);
     Rng r(mix(seed, uint64_t(i), 77));
+    adversary().mode = unsigned((i / 3) % 3);
+    adversary().seed = r.next();
     uint8_t tid[16], sid[8];
     make_ok_id(r, tid, 16);
     make_ok_id(r, sid, 8);
@@ -654,9 +656,7 @@ static int record(uint64_t seed, long n)
                 {"raw", tp ? esc(*tp) : ""}};
       std::cout << e.dump() << std::endl;
     }
-  }
-  current_case().clear();
-  return 0;
+  }, [](size_t ii) { return long(ii); }, 12);
 }
 
 int main(int argc, char **argv)
